@@ -408,7 +408,7 @@ func checkC14(c *Ctx, r *Report) {
 	r.Check(mustPrecede(op, before, walkCall) && mustPrecede(op, walkCall, after), oname+"|info ≺ walk ≺ info", walkCall.Pos(), "repository info is read before and after the walk", "repository info is not read both before and after the walk")
 	// comparisons: time.Time.Before(initial.X, final.X)
 	type cmpInfo struct {
-		ifi   *ssa.If
+		call  *ssa.Call
 		field string
 		ok    bool
 	}
@@ -427,17 +427,19 @@ func checkC14(c *Ctx, r *Report) {
 		}
 		return sel, true
 	}
-	for _, ifi := range viewIfs(op) {
-		call, isCall := ifi.Cond.(*ssa.Call)
+	// every time.Time.Before(x, y) of the view, whether it is branched on directly or its
+	// result is combined into a boolean first
+	viewInstrs(op, func(in ssa.Instruction) {
+		call, isCall := in.(*ssa.Call)
 		if !isCall || calleeName(&call.Call) != "(time.Time).Before" {
-			continue
+			return
 		}
 		lf, lok := rootIs(call.Call.Args[0], before)
 		rf, rok := rootIs(call.Call.Args[1], after)
-		ci := cmpInfo{ifi: ifi, field: lf}
+		ci := cmpInfo{call: call, field: lf}
 		ci.ok = lok && rok && lf == rf
 		cmps = append(cmps, ci)
-	}
+	})
 	seen := map[string]bool{}
 	for _, ci := range cmps {
 		if ci.ok {
@@ -460,10 +462,10 @@ func checkC14(c *Ctx, r *Report) {
 			cell = fc
 			nStores[in] = true
 			fields := map[string]bool{}
-			for _, tk := range p.Ifs() {
+			for _, bf := range p.boolFacts() {
 				for _, ci := range cmps {
-					if ci.ok && ci.ifi == tk.If {
-						if tk.Arm {
+					if ci.ok && bf.V == ssa.Value(ci.call) {
+						if bf.True {
 							okPub, whyPub = false, "stored on a path where the "+ci.field+" comparison reported a newer timestamp"
 						} else {
 							fields[ci.field] = true
